@@ -45,12 +45,17 @@ use crate::pool::{Keys, SLOTS_PER_WINDOW, VK, hash_of, id_of, r_bid, r_cert, r_v
 use crate::rng::Rng;
 use crate::votor::Recorder;
 
-/// src/consensus.rs: DELTA is public, the other three are private and mirrored here (and in Oracle/C02.v).
-pub const DELTA: u64 = 250;
-pub const D_BLOCK: u64 = 400;
-pub const D_FIRST: u64 = 10;
-pub const D_TIMEOUT: u64 = 3 * DELTA;
-pub const D_STANDSTILL: u64 = 10_000;
+/// The timing constants of src/consensus.rs in ms, read from the crate itself (DELTA is public, the other four come
+/// through the cfg hook `consensus::verif_timing`): (DELTA, DELTA_BLOCK, DELTA_FIRST_SLICE, DELTA_TIMEOUT, DELTA_STANDSTILL).
+pub fn timing_ms() -> (u64, u64, u64, u64, u64) {
+    let (b, f, t, s) = alpenglow::consensus::verif_timing();
+    (alpenglow::consensus::DELTA.as_millis() as u64, b.as_millis() as u64, f.as_millis() as u64, t.as_millis() as u64, s.as_millis() as u64)
+}
+#[allow(non_snake_case)] pub fn DELTA() -> u64 { timing_ms().0 }
+#[allow(non_snake_case)] pub fn D_BLOCK() -> u64 { timing_ms().1 }
+#[allow(non_snake_case)] pub fn D_FIRST() -> u64 { timing_ms().2 }
+#[allow(non_snake_case)] pub fn D_TIMEOUT() -> u64 { timing_ms().3 }
+#[allow(non_snake_case)] pub fn D_STANDSTILL() -> u64 { timing_ms().4 }
 
 /// Offsets (ms after `set_timeouts`) at which the REAL timer task spawned by `Votor::set_timeouts` delivers the
 /// crashed-leader timeout and the per-slot timeouts of a window, measured under tokio's paused clock (hook
@@ -93,8 +98,8 @@ pub fn timer_schedule(keys: &Keys) -> &'static ((u64, Vec<u64>), Option<String>)
 
 /// The schedule `Votor::set_timeouts` is documented to follow (mirrored constants).
 pub fn mirrored_timer_schedule() -> (u64, Vec<u64>) {
-    let c = D_TIMEOUT + D_FIRST;
-    (c, (0..SLOTS_PER_WINDOW).map(|k| c + (D_BLOCK - D_FIRST) + k * D_BLOCK).collect())
+    let c = D_TIMEOUT() + D_FIRST();
+    (c, (0..SLOTS_PER_WINDOW).map(|k| c + (D_BLOCK() - D_FIRST()) + k * D_BLOCK()).collect())
 }
 
 #[derive(Clone, Copy, PartialEq, Eq, Debug)]
@@ -109,7 +114,7 @@ pub enum Role {
 /// network behaviour before the stabilisation time
 #[derive(Clone, Copy, PartialEq, Eq, Debug)]
 pub enum PreNet {
-    /// delays up to the full remaining time until gst (+ DELTA), half of the messages fast
+    /// delays up to the full remaining time until gst (+ DELTA()), half of the messages fast
     Random,
     /// two groups; messages across the cut are held until gst
     Partition,
@@ -119,7 +124,7 @@ pub enum PreNet {
     Lossy,
 }
 
-/// network behaviour after the stabilisation time (always <= DELTA)
+/// network behaviour after the stabilisation time (always <= DELTA())
 #[derive(Clone, Copy, PartialEq, Eq, Debug)]
 pub enum PostNet {
     Random,
@@ -333,7 +338,7 @@ impl<'a> Sim<'a> {
                 fin_log: Vec::new(), certs_seen: Vec::new(), own_votes: Vec::new(),
             }));
         }
-        let link = (0..n).map(|_| (0..n).map(|_| rng.range(1, DELTA)).collect()).collect();
+        let link = (0..n).map(|_| (0..n).map(|_| rng.range(1, DELTA())).collect()).collect();
         let group = (0..n).map(|_| rng.chance(1, 2)).collect();
         let straggler = rng.below(n as u64) as usize;
         let hard_end = cfg.gst + 45_000;
@@ -371,32 +376,32 @@ impl<'a> Sim<'a> {
         if let Some(sab) = &self.sabotage {
             if now >= self.cfg.gst && from != to {
                 if sab == "isolate" && Some(to) == (0..self.n).rev().find(|&j| self.is_correct(j)) { return None; }
-                if sab == "slow" { return Some(self.rng.range(2 * DELTA, 3 * DELTA)); }
+                if sab == "slow" { return Some(self.rng.range(2 * DELTA(), 3 * DELTA())); }
             }
         }
         if from == to {
-            return Some(if self.rng.chance(3, 4) { self.rng.range(0, 2) } else { self.rng.range(1, DELTA) });
+            return Some(if self.rng.chance(3, 4) { self.rng.range(0, 2) } else { self.rng.range(1, DELTA()) });
         }
         if now >= self.cfg.gst {
             return Some(match self.cfg.post {
-                PostNet::Random => self.rng.range(1, DELTA),
-                PostNet::AlwaysMax => DELTA,
+                PostNet::Random => self.rng.range(1, DELTA()),
+                PostNet::AlwaysMax => DELTA(),
                 PostNet::AlwaysMin => 1,
                 PostNet::PerLink => self.link[from][to],
             });
         }
         let until = self.cfg.gst - now;
         Some(match self.cfg.pre {
-            PreNet::Random => if self.rng.chance(1, 2) { self.rng.range(1, DELTA) } else { self.rng.range(1, until + DELTA) },
+            PreNet::Random => if self.rng.chance(1, 2) { self.rng.range(1, DELTA()) } else { self.rng.range(1, until + DELTA()) },
             PreNet::Lossy => {
                 if self.rng.chance(3, 10) {
                     self.lost_any = true;
                     return None;
                 }
-                if self.rng.chance(1, 2) { self.rng.range(1, DELTA) } else { self.rng.range(1, until + DELTA) }
+                if self.rng.chance(1, 2) { self.rng.range(1, DELTA()) } else { self.rng.range(1, until + DELTA()) }
             }
-            PreNet::Partition => if self.group[from] == self.group[to] { self.rng.range(1, DELTA) } else { until + self.rng.range(1, DELTA) },
-            PreNet::Straggler => if from == self.straggler || to == self.straggler { until + self.rng.range(1, DELTA) } else { self.rng.range(1, DELTA) },
+            PreNet::Partition => if self.group[from] == self.group[to] { self.rng.range(1, DELTA()) } else { until + self.rng.range(1, DELTA()) },
+            PreNet::Straggler => if from == self.straggler || to == self.straggler { until + self.rng.range(1, DELTA()) } else { self.rng.range(1, DELTA()) },
         })
     }
 
@@ -690,7 +695,7 @@ impl<'a> Sim<'a> {
             }
         }
         for b in to_repair {
-            let d = self.rng.range(1, DELTA);
+            let d = self.rng.range(1, DELTA());
             self.push(t + d, Ev::RepairTry { to: i, b, tries: 0 });
         }
         if let Some((s, p)) = start_produce {
@@ -738,11 +743,11 @@ impl<'a> Sim<'a> {
         let t = self.now;
         let hash = slot * 10 + 1;
         // block time: DELTA_BLOCK, occasionally shorter (optimistic production had a head start)
-        let dur = if self.rng.chance(1, 6) { self.rng.range(D_FIRST + 1, D_BLOCK) } else { D_BLOCK };
+        let dur = if self.rng.chance(1, 6) { self.rng.range(D_FIRST() + 1, D_BLOCK()) } else { D_BLOCK() };
         for to in 0..self.n {
-            if to == who { self.push(t + D_FIRST.min(dur), Ev::FirstShred { to, slot }); continue; }
+            if to == who { self.push(t + D_FIRST().min(dur), Ev::FirstShred { to, slot }); continue; }
             if let Some(d) = self.delay(who, to) {
-                let tf = (t + D_FIRST + d).min(t + dur);
+                let tf = (t + D_FIRST() + d).min(t + dur);
                 self.push(tf, Ev::FirstShred { to, slot });
             }
         }
@@ -812,7 +817,7 @@ impl<'a> Sim<'a> {
             if (w % self.n as u64) as usize == i && !self.byz_plan.contains_key(&(i, s)) {
                 if let Some(hz) = self.horizon { if w >= hz { continue; } }
                 self.byz_plan.insert((i, s), 1);
-                let d = self.rng.range(0, D_BLOCK);
+                let d = self.rng.range(0, D_BLOCK());
                 self.push(t + d, Ev::ByzLead { who: i, slot: s, parent: p });
             }
         }
@@ -869,11 +874,11 @@ impl<'a> Sim<'a> {
                 for j in 0..self.n { if self.rng.chance(1, 2) { a.push(j) } else { b.push(j) } }
                 for &to in &all { if let Some(d) = self.delay(who, to) { let t = self.now + d; self.push(t, Ev::FirstShred { to, slot: first }); } }
                 let t0 = self.now;
-                self.now = t0 + DELTA.min(D_BLOCK);
+                self.now = t0 + DELTA().min(D_BLOCK());
                 self.disseminate(who, first, h1, parent, &a);
                 self.disseminate(who, first, h2, parent, &b);
                 for &to in &all {
-                    if self.rng.chance(1, 3) { if let Some(d) = self.delay(who, to) { let t = self.now + d + DELTA; self.push(t, Ev::Invalid { to, slot: first }); } }
+                    if self.rng.chance(1, 3) { if let Some(d) = self.delay(who, to) { let t = self.now + d + DELTA(); self.push(t, Ev::Invalid { to, slot: first }); } }
                 }
                 self.now = t0;
             }
@@ -887,8 +892,8 @@ impl<'a> Sim<'a> {
                 for s in first..=last {
                     let h = s * 10 + 2;
                     self.blocks.push(((s, h), par, who as u64));
-                    self.now += D_BLOCK;
-                    for &to in &part { if let Some(d) = self.delay(who, to) { let t = self.now - D_BLOCK + d.min(D_BLOCK); self.push(t, Ev::FirstShred { to, slot: s }); } }
+                    self.now += D_BLOCK();
+                    for &to in &part { if let Some(d) = self.delay(who, to) { let t = self.now - D_BLOCK() + d.min(D_BLOCK()); self.push(t, Ev::FirstShred { to, slot: s }); } }
                     self.disseminate(who, s, h, par, &part);
                     par = (s, h);
                 }
@@ -902,8 +907,8 @@ impl<'a> Sim<'a> {
                 for s in first..=last {
                     let h = s * 10 + 2;
                     self.blocks.push(((s, h), par, who as u64));
-                    self.now += D_BLOCK;
-                    for &to in &all { if let Some(d) = self.delay(who, to) { let t = self.now - D_BLOCK + d.min(D_BLOCK); self.push(t, Ev::FirstShred { to, slot: s }); } }
+                    self.now += D_BLOCK();
+                    for &to in &all { if let Some(d) = self.delay(who, to) { let t = self.now - D_BLOCK() + d.min(D_BLOCK()); self.push(t, Ev::FirstShred { to, slot: s }); } }
                     self.disseminate(who, s, h, par, &all);
                     par = (s, h);
                 }
@@ -926,7 +931,7 @@ impl<'a> Sim<'a> {
         for i in 0..self.n {
             if matches!(self.cfg.roles[i], Role::Correct | Role::Crashed(_)) && self.nodes[i].is_some() {
                 self.push(0, Ev::LeaderStart { who: i, window: i as u64 });
-                self.push(D_STANDSTILL + D_BLOCK, Ev::StandCheck { to: i });
+                self.push(D_STANDSTILL() + D_BLOCK(), Ev::StandCheck { to: i });
                 // Votor::new arms the timers of window 0
                 self.arm_timers(i, 0);
             }
@@ -952,14 +957,14 @@ impl<'a> Sim<'a> {
                 Ev::StandCheck { to } => {
                     if !self.alive(to, self.now) || self.complete() || self.nodes[to].as_ref().map_or(true, |n| n.votor.is_none()) { continue; }
                     let lp = self.nodes[to].as_ref().unwrap().last_progress;
-                    if self.now - lp > D_STANDSTILL {
+                    if self.now - lp > D_STANDSTILL() {
                         self.count("standstill-recovery");
                         self.nodes[to].as_mut().unwrap().last_progress = self.now;
                         self.node_in(to, In::Standstill);
-                        let t = self.now + D_STANDSTILL + D_BLOCK;
+                        let t = self.now + D_STANDSTILL() + D_BLOCK();
                         self.push(t, Ev::StandCheck { to });
                     } else {
-                        self.push(lp + D_STANDSTILL + D_BLOCK, Ev::StandCheck { to });
+                        self.push(lp + D_STANDSTILL() + D_BLOCK(), Ev::StandCheck { to });
                     }
                 }
                 Ev::LeaderStart { who, window } => {
@@ -989,13 +994,13 @@ impl<'a> Sim<'a> {
                     match (holder, entry) {
                         (Some(hd), Some((_, parent, _))) => {
                             self.count("repair-delivered");
-                            let d1 = self.delay(to, hd).unwrap_or(DELTA);
-                            let d2 = self.delay(hd, to).unwrap_or(DELTA);
+                            let d1 = self.delay(to, hd).unwrap_or(DELTA());
+                            let d2 = self.delay(hd, to).unwrap_or(DELTA());
                             let t = self.now + d1 + d2;
                             self.push(t, Ev::VBlock { to, slot: b.0, hash: b.1, parent });
                             self.push(t, Ev::PBlock { to, b, p: parent });
                         }
-                        _ => { if tries < 40 { let t = self.now + DELTA; self.push(t, Ev::RepairTry { to, b, tries: tries + 1 }); } }
+                        _ => { if tries < 40 { let t = self.now + DELTA(); self.push(t, Ev::RepairTry { to, b, tries: tries + 1 }); } }
                     }
                 }
                 Ev::ByzLead { who, slot, parent } => { self.byz_lead(who, slot, parent); }
